@@ -39,7 +39,10 @@ ASSUMPTIONS = ["only exceptions deriving from Exception are injected (BaseExcept
 BUDGETS = {"quick": (4500, 90), "thorough": (500000, 285)}
 SHRINK_CAP = 200
 EXC = ["Exception", "ValueError", "RuntimeError", "KeyError", "TimeoutError", "StopIteration", "AbortRetryError",
-       "RetryExhaustedError", "CircuitOpenError", "AsyncTimeoutError", "OSError", "Custom"]
+       "RetryExhaustedError", "CircuitOpenError", "AsyncTimeoutError", "OSError", "Custom", "TypeError", "AttributeError",
+       "IndexError", "AssertionError", "NotImplementedError", "ZeroDivisionError", "UnicodeError", "EOFError", "ImportError",
+       "MemoryError", "RecursionError", "StopAsyncIteration", "LookupError", "ArithmeticError", "BufferError", "ReferenceError",
+       "SystemError", "ConnectionError", "PermissionError", "Warning"]
 CONTROL = ("OP_BEGIN", "OP_END", "STRATEGY", "HANDLER", "SLEEP_BEGIN", "SLEEP_END", "BUDGET", "BREAKER", "CALL_END", "POLL")
 
 
